@@ -979,7 +979,7 @@ func (st *c05State) collectHostX(e *c05Extra, dump string) (hcases []string) {
 			if out == "PANIC" {
 				return "panic"
 			}
-			return hxDecode(p.Consumer, out)
+			return hxDecode(p.Consumer, out, p.Interp)
 		}
 		oy, og := obs(yo, yok), obs(gout, gok)
 		if e.y.End != "ok" && !yok {
